@@ -96,6 +96,8 @@ fn err_class(e: &ConfigError) -> &'static str {
         ConfigError::InvalidHeaderBytes { .. } => "InvalidHeaderBytes",
         ConfigError::HstsEnabledRequired(_) => "HstsEnabledRequired",
         ConfigError::HstsOnPlainHttp(_) => "HstsOnPlainHttp",
+        ConfigError::InvalidCertificate { .. } => "InvalidCertificate",
+        ConfigError::InvalidSozuIdHeader { .. } => "InvalidSozuIdHeader",
     }
 }
 
